@@ -179,6 +179,11 @@ impl ChannelQueue {
       ChannelQueueKind::Sync => {
         if self.is_empty() && !self.is_closed() {
           find_runnable_waiter(&mut self.send_waiters)
+        } else if self.is_empty() {
+          // closed and drained. Every receive yields nil, the value of a
+          // blocked sender was taken and a retried send meets the closed channel
+          find_runnable_waiter(&mut self.receive_waiters)
+            .or_else(|| find_runnable_waiter(&mut self.send_waiters))
         } else {
           find_runnable_waiter(&mut self.receive_waiters)
         }
@@ -186,7 +191,11 @@ impl ChannelQueue {
       ChannelQueueKind::Buffered => {
         if self.is_empty() && !self.is_closed() {
           find_runnable_waiter(&mut self.send_waiters)
-        } else if self.len() == self.capacity || self.is_closed() {
+        } else if self.is_closed() {
+          // a retried send meets the closed channel
+          find_runnable_waiter(&mut self.receive_waiters)
+            .or_else(|| find_runnable_waiter(&mut self.send_waiters))
+        } else if self.len() == self.capacity {
           find_runnable_waiter(&mut self.receive_waiters)
         } else {
           find_runnable_waiter(&mut self.send_waiters)
